@@ -4,7 +4,7 @@
    over arbitrary histories of runs in one process.  PARTIAL: what is proved is the aliasing discipline of the
    directive state (the part that is xdoctest's logic); that exec() with a copied namespace dict does not write
    the module and that each DocTest owns its namespace is runtime behaviour, checked on the implementation. *)
-From XD Require Import Model.Base Model.Parser Model.Directive Model.Isolation Proofs.IsolationProofs.
+From XD Require Import Model.Base Model.Parser Model.Directive Model.Isolation Proofs.IsolationProofs Proofs.IsolationRefine.
 
 (* for EVERY history of runs (any order, repetitions, any default options, any directives incl. ones that make
    update raise) every heap cell that existed before - in particular the REQUIRES set of the process-wide
@@ -45,3 +45,42 @@ Example C11_example :
   let h1 := run_directives h0 defaults [] [[HE_set false true K_REQUIRES [120%N]]] in
   hread h1 0%nat = [] /\ hread h1 1%nat = [[120%N]].
 Proof. vm_compute. split; reflexivity. Qed.
+
+(* refinement: read through the heap, every effect of update computes exactly the state the pure RuntimeState
+   model (Model/Directive.v, the one C04 is proved about) computes -- or both raise --, and keeps the state's
+   set cells pairwise distinct: sharing is never observable *)
+Theorem C11_heap_refines_pure_state : forall h st e, Sep h st ->
+  match happly h st e with
+  | Some (h', st') => apply_effect (inline_of e) (abs h st) (effect_of e) = UOk (abs h' st') /\ Sep h' st'
+  | None => exists x, apply_effect (inline_of e) (abs h st) (effect_of e) = UErr x
+  end.
+Proof. exact happly_refines. Qed.
+Print Assumptions C11_heap_refines_pure_state.
+
+(* the directive states a run goes through are the same after ANY history of earlier runs in the process
+   (any number of doctests, any order, repetitions, any options, any directives, raising updates included)
+   as in a fresh process *)
+Theorem C11_directive_states_independent_of_history : forall hist h defaults ds parts,
+  (forall c, In c (cells defaults) -> (c < length h)%nat) ->
+  run_trace (exec_history h defaults hist) defaults ds parts = run_trace h defaults ds parts.
+Proof. exact run_trace_independent_of_history. Qed.
+Print Assumptions C11_directive_states_independent_of_history.
+
+(* and they are the pure model's states started from rs_init *)
+Theorem C11_directive_states_are_the_pure_models : forall hist h defaults ds parts,
+  (forall c, In c (cells defaults) -> (c < length h)%nat) ->
+  abs_dict h defaults = DEFAULT_RUNTIME_STATE ->
+  run_trace (exec_history h defaults hist) defaults ds parts = p_trace (rs_init (bools ds)) parts.
+Proof. exact run_trace_is_rs_init. Qed.
+Print Assumptions C11_directive_states_are_the_pure_models.
+
+(* the hypotheses are met by the real defaults (eleven flags, the REQUIRES set in cell 0); a run that leaves an
+   unmet REQUIRES and SKIP switched on does not change what the next run goes through *)
+Theorem C11_refinement_hypotheses_satisfiable :
+  abs_dict [[]] demo_defaults = DEFAULT_RUNTIME_STATE /\
+  (forall c, In c (cells demo_defaults) -> (c < length ([[]] : heap))%nat) /\
+  let dirty := [([], [[HE_set false true K_REQUIRES [120%N]; HE_assign false K_SKIP true]])] in
+  run_trace (exec_history [[]] demo_defaults dirty) demo_defaults [] [[HE_set true true K_REQUIRES [121%N]]]
+  = run_trace [[]] demo_defaults [] [[HE_set true true K_REQUIRES [121%N]]].
+Proof. exact demo_defaults_ok. Qed.
+Print Assumptions C11_refinement_hypotheses_satisfiable.
